@@ -48,7 +48,7 @@ CFG = {
     "exhaustive": {"quick": False, "thorough": True},
     "shrink": False,
     "rule": "corpus (defect #17 input, the unit-test fixtures, one case per rejection rule, huge numbers, comments.case: the concrete instance of objstm_spelled_roundtrip and headers with comments in every run, accepted and rejected; filtered.case: the concrete instance of objstm_roundtrip_encoded - hex over Flate + PNG Up - and the two concrete corrupt-layer rejections; dynamic.case: the concrete instance of Props/C14Dyn.lean - the same members behind ONE dynamic-Huffman zlib block with a hand-written header - accepted, and cut in the Huffman-coded data / one byte before the end of the trailer / with an altered Adler-32 byte: rejected; tight.case: the minimal instances of the MINIMAL-LAYOUT family below - /N 1 /First 3 `7 0<<>>`, /N 2 /First 7 "
-            "`9 0 4 3[] ()` and `1 0 2 2[]()`, /N 7 /First 27, the two-digit boundary, /First one less (rejected) and one more, behind Flate / ASCIIHex / ASCII85 over Flate; views.case: 17 minimal cases on restricted views) "
+            "`9 0 4 3[] ()` and `1 0 2 2[]()`, /N 7 /First 27, the two-digit boundary, /First one less (rejected) and one more, behind Flate / ASCIIHex / ASCII85 over Flate; views.case: 17 minimal cases on restricted views; bounds.case: the minimal instances of the BOUNDARY-VALUE and ZLIB-HEADER families below - `7 0<<>>` with /N = 2^59, 10^18, 2^63-1 (first: a panic there is the deterministic symptom), 2^31, 2^32, 2^53, 0, 2, 2^63, -1, 1.0, (1), absent; /N 1 on a two-pair header; /First, the identifier and the offset over the same kind of values; one stored block under the zlib headers 48 89 / 18 95 / 08 1D / 68 DE / 78 DA, real zlib output for a 512-byte window, 88 1C and 78 20 rejected) "
             "+ RESTRICTED VIEWS: every generated case below is run twice (quick tier: of the two big systematic enumerations - the exhaustive small space `ex` and the minimal-layout classes `tight..` - every second case; "
             "thorough: all): on a plain ParseBuffer and (case tag `vw <steps> <prehex> <sufhex> <case>`, Driver/ViewTwin.lean, same design as C05) on a RESTRICTED VIEW whose window is the case's <viewhex> inside ONE larger "
             "allocation pre ++ window ++ suf - the way the crate reaches an object stream (the stream's content inside the file's buffer); the harness applies the chain of RestrictView / RestrictViewFrom steps, checks that "
@@ -75,6 +75,24 @@ CFG = {
             "white-space byte of padding and /First one MORE (same members), /First one more over the same data (correspondence + no panic) - all three for N <= 2, in rotation above - and, for "
             "every second one, the stream behind a filter option of the generator in rotation (Flate stored block with junk before the cursor in 3 dictionary spellings / chain drawn by C06's "
             "randChain / the systematic chains of length 1 and 2 / Flate + TIFF or PNG predictor); 5 dictionary spellings; expected members from the spec-side layout (memberWant) "
+            "+ BOUNDARY VALUES of the four kinds of numbers an object stream declares (after missed seed C14_8, `Vec::with_capacity(/N)`: capacity-overflow panic from /N = 2^59, allocation abort below): on an otherwise "
+            "well-formed stream, /N, /First, a header identifier, a header offset are each replaced by EVERY value of one set around the exact value e: 0, 1, e-1, e, e+1, 2e, 255, 256, 65535, 65536, 2^31-1, 2^31, "
+            "2^32-1, 2^32, 2^32+1, 2^53, 2^59-1, 2^59, 10^18, 2^62, 2^63-1, the overflowing 2^63 and 2^64, the negatives -1, -e, -(2^63-1), seven objects that are not integers (null, e.0, (e), /e, true, [e], e 0 R) and "
+            "absent (the dictionary entry left out / the header number left out); header numbers are replaced in the first and in the last pair, the header is laid out again and /First follows it. Expectation decided on the "
+            "spec side from the layout: /N = e the members, 1 <= /N < e the first /N members (the other pairs are padding before /First), every other /N rejected (0; more than the pairs present - no padding of the "
+            "generator holds a number; not a usize); /First = e the members, /First >= |data| or not beyond the first digit of the last offset (fewer than 2N integers in the header view) or not a usize rejected, any other "
+            "position correspondence only; a fresh identifier <= 2^63-1 the same members under that identifier, one that repeats a member's or a predefined identifier rejected; an offset not above the previous / not below "
+            "the next / at or beyond the end of the content rejected, another position inside the content correspondence only; negative, overflowing, non-integer and missing header numbers rejected (except `e 0 R` / `e.0` "
+            "in the last pair, which leave a complete header followed by junk: correspondence only). The judge calls a `panic ..` output or a `crash:<rc>` (process abort, e.g. allocation failure; ./check restarts the harness "
+            "behind it) bad for every kind of case. Bases: 10 minimal-layout streams (N = 1, 2, 3, 7, 12; thorough 60) and 14 random layouts of 1..6 members with each of the five paddings before /First (thorough 150); "
+            "each base as it is (classes bnd-N, bnd-First, bnd-id, bnd-ofs) and behind ONE filter option in rotation - Flate stored block in 3 dictionary spellings / systematic chain / chain of C06's randChain / Flate + "
+            "TIFF or PNG predictor - where /N, /First (judged against the DECODED data) and the last pair are swept (classes ..-flate, ..-chain<k>); 3 dictionary spellings (/First before /N, /Length present); values whose "
+            "allocation the unchanged code would attempt are not needed: it never sizes anything by /N (with /N = 2^31 it reads pairs until the header runs out) "
+            "+ ZLIB HEADERS (after missed seed C06_8, FlateDecode accepting only CMF = 0x78; generator-side only, built in Driver/C14.lean by replacing the two header bytes of a stream of the spec-side encoders - DEFLATE "
+            "data and Adler-32 do not depend on them): for each of those bases the object stream behind one Flate layer (stored / fixed-Huffman literals / fixed-Huffman with matches, by case number) under all 32 legal "
+            "headers CM = 8, CINFO 0..7 (window 256 bytes .. 32 KiB), FLEVEL 0..3, FDICT 0, FCHECK making CMF*256+FLG a multiple of 31 (a stream with matches keeps 0x78 unless the window covers the layer's whole input), "
+            "and behind [/ASCIIHexDecode /FlateDecode], [/ASCII85Decode /FlateDecode], [/FlateDecode /FlateDecode], [/FlateDecode /ASCIIHexDecode] or Flate + predictor under the 8 window sizes: expected the same members "
+            "(class zhdr); CINFO = 8, 15 and FDICT = 1 with a correct FCHECK: rejected "
             "+ exhaustive small space: every content over "
             "{1,2,blank,x} and every content over {1,blank,%,LF} containing % or LF (comments with and without a terminating LF before an offset), of length <= 4 (thorough: <= 5), x every offset pair (o0,o1) in [0,len+1]^2 under a 2-pair header (quick: every 3rd), judged "
             "by a small digit reader that looks only at the bytes from the declared offset on + random streams: 1..6 members with values from the C02 generator spelled by the C02 encoder, ids incl. "
@@ -97,8 +115,8 @@ CFG = {
             "single-rule corruption: non-increasing offset, /N larger than the pairs present, /First >= |data|, next offset inside the previous "
             "object, id predefined, id repeated, 14 dictionary defects, offset beyond the content / 2^32 / 2^63-1 / 2^63 / 2^64 / 10^30, id replaced "
             "by a fresh one (must still extract), nesting bound below the deepest member, byte truncation/alteration and arbitrary header-number "
-            "replacement (correspondence + no panic). non-trivial = >= 2 members or a Flate / filter-chain / minimal-layout case (rt), both offsets inside the content and distinct "
-            "(ex), >= 12 data bytes (rej/mut); a case on a view: the case is non-trivial and the window is a proper part of the allocation; distinct by case hash",
+            "replacement (correspondence + no panic). non-trivial = >= 2 members or a Flate / filter-chain / minimal-layout / boundary-value / zlib-header case (rt), both offsets inside the content and distinct "
+            "(ex), >= 12 data bytes or a boundary-value / zlib-header case (rej/mut); a case on a view: the case is non-trivial and the window is a proper part of the allocation; distinct by case hash",
     "trusted_base": COMMON_TB + [
         "modelled, not verified: ParseBuffer views as byte lists with a view-relative cursor (C17), BTreeMap as a key-ordered association list; the buffer ObjStreamP is GIVEN, when it is itself a restricted "
             "view, is modelled by its window (the model of a `vw` case is the model of the case on the window's bytes, after checking that the chain of RestrictView / RestrictViewFrom steps selects that window by the "
